@@ -234,12 +234,11 @@ Proof. intros H. unfold host_part. unfold has_colon in H. now rewrite (last_inde
 
 Lemma region_none t globoff tls m host uri :
   region t globoff tls m host uri = None ->
-  F_C03_upper_host_noglob globoff host = false /\ F_C03_colon_key t = false /\
+  F_C03_colon_key t = false /\
   F_C03_gobwas_overlap globoff tls m t host uri = false /\ F_C03_iprefix_case m t = false /\
   F_C03_empty_star globoff tls t host = false /\ F_C03_metachar_order globoff t = false.
 Proof.
   unfold region.
-  destruct (F_C03_upper_host_noglob globoff host); [discriminate|].
   destruct (F_C03_colon_key t); [discriminate|].
   destruct (F_C03_gobwas_overlap globoff tls m t host uri); [discriminate|].
   destruct (F_C03_iprefix_case m t); [discriminate|].
@@ -370,7 +369,7 @@ Theorem lookup_unbeaten_on_domain t host tls uri m globoff c :
 Proof.
   intros Hok Hreg Hbytes Hl c' Hc'.
   pose proof (table_ok_wf t Hok) as Hwf.
-  destruct (region_none _ _ _ _ _ _ Hreg) as (F1 & _ & F6 & F2 & F4 & F3).
+  destruct (region_none _ _ _ _ _ _ Hreg) as (_ & F6 & F2 & F4 & F3).
   destruct Hok as (Hplain & Hnd & Hsorted).
   assert (Hok : table_ok t) by (repeat split; assumption).
   unfold candidates in Hc'. apply filter_In in Hc' as [Hall' Hcand'].
@@ -390,10 +389,7 @@ Proof.
   { apply in_or_app. apply orb_true_iff in Hhost' as [Hnil | Hh].
     - right. destruct k'; [now left | discriminate].
     - left. unfold host_list. unfold spec_host_match in Hh. destruct globoff.
-      + apply (matching_host_noglob_in t host tls k' Hwf). split; [exact Hkey'|].
-        unfold F_C03_upper_host_noglob in F1. cbn [andb] in F1.
-        unfold normalize_host at 2 in Hh.
-        now rewrite (lower_no_upper _ (has_upper_strip host tls F1)) in Hh.
+      + apply (matching_host_noglob_in t host tls k' Hwf). split; [exact Hkey' | exact Hh].
       + apply (matching_hosts_in t host tls k' Hwf). split; [exact Hkey'|].
         now rewrite (no_dev_host _ _ _ _ _ _ _ F6 eq_refl Hkey'). }
   rewrite EL in HinL. apply in_app_or in HinL as [Hbad | HinL].
@@ -452,7 +448,7 @@ Theorem lookup_meets_spec_on_domain t host tls uri m globoff :
 Proof.
   intros Hok Hreg Hbytes.
   pose proof (table_ok_wf t Hok) as Hwf.
-  destruct (region_none _ _ _ _ _ _ Hreg) as (F1 & _ & F6 & _ & _ & _).
+  destruct (region_none _ _ _ _ _ _ Hreg) as (_ & F6 & _ & _ & _).
   unfold spec_b. destruct (lookup t host tls uri m globoff) as [c|] eqn:El.
   - apply andb_true_iff. split.
     + apply existsb_exists. exists c. split; [|apply cand_eqb_refl].
@@ -464,7 +460,7 @@ Proof.
     exfalso. assert (Hc0 : In c0 (candidates t globoff tls m host uri)) by (rewrite Ec; now left).
     unfold candidates in Hc0. apply filter_In in Hc0 as [Hin Hc].
     destruct Hok as (_ & Hnd & _).
-    now apply (lookup_complete t host tls uri m globoff c0 Hwf Hnd F6 F1 Hin Hc).
+    now apply (lookup_complete t host tls uri m globoff c0 Hwf Hnd F6 Hin Hc).
 Qed.
 
 (* ---- the named clauses, as corollaries ---- *)
@@ -497,7 +493,7 @@ Proof.
   assert (Hkey' : In k' (keys t)).
   { unfold candidates in Hc. apply filter_In in Hc as [Hc _]. now apply keys_of_all_routes in Hc. }
   assert (Hkey : In k (keys t)).
-  { destruct (region_none _ _ _ _ _ _ Hreg) as (_ & _ & F6 & _).
+  { destruct (region_none _ _ _ _ _ _ Hreg) as (_ & F6 & _).
     assert (Hwf : wf_keys t).
     { unfold wf_keys. apply Forall_forall. intros x Hx. destruct (Hplain x Hx) as [Hl' Hc'].
       split; [exact Hl' | now apply rhp_stable_nocolon]. }
@@ -524,7 +520,7 @@ Proof.
   assert (Hkey' : In k' (keys t)).
   { unfold candidates in Hc. apply filter_In in Hc as [Hc _]. now apply keys_of_all_routes in Hc. }
   assert (Hkey : In k (keys t)).
-  { destruct (region_none _ _ _ _ _ _ Hreg) as (_ & _ & F6 & _).
+  { destruct (region_none _ _ _ _ _ _ Hreg) as (_ & F6 & _).
     assert (Hwf : wf_keys t).
     { unfold wf_keys. apply Forall_forall. intros x Hx. destruct (Hplain x Hx) as [Hl' Hc'].
       split; [exact Hl' | now apply rhp_stable_nocolon]. }
